@@ -145,6 +145,12 @@ var prop = vh.Define("C04", "wellformed", func(c Case, r *vh.R) {
 		r.Failf("version", "requested %s, file says %s", s.Version, p.Version)
 		return
 	}
+	if s.HasCollide() {
+		// accepted although one field came under two spellings: how they are folded is not
+		// prescribed, the file is well-formed (judged above), nothing more is compared
+		r.Class("colliding-header-keys-accepted")
+		return
+	}
 	// the file must contain exactly the exchanges of the model (content judged from the bytes)
 	model := s.Model()
 	seen := map[string]int{}
@@ -268,6 +274,21 @@ func TestOptionalParts(t *testing.T) {
 								return
 							}
 						}
+					}
+				}
+			}
+		}
+	}
+	// one field under two spellings of its name, with equal and with different values, first / last / only exchange
+	for _, ver := range []string{"b1", "b2"} {
+		for _, collide := range []int{1, 2} {
+			for at := 0; at < 2; at++ {
+				for nex := at + 1; nex <= 2; nex++ {
+					s := bundlekit.Spec{Version: ver, Primary: "https://a.example/a", Exchanges: append([]bundlekit.ExSpec{}, exs[:nex]...)}
+					s.Exchanges[at].Collide = collide
+					n++
+					if !prop.One(t, Case{Spec: s, Sink: "buffer"}) {
+						return
 					}
 				}
 			}
